@@ -385,6 +385,8 @@ def run(R):
         R.encode(getattr(K, kn))
         items.append(("contract", kn, quick))
     R.bounds["kernel_contracts"] = "arbitrary uint8 (and float32 for zero-DM) data at small (nchans, nsamps) shapes"
+    from .. import kvalid
+    kvalid.validate(R, ["invert_freq", "mask_channels", "downsample_2d_mean_flat", "subband", "remove_zerodm"])
     parts = R.pmap(work, items)
     R.vacuity_witness("c07", sum(p.reached for p in parts) > 0)
     st = build_stream()
